@@ -204,6 +204,10 @@ func Curated() []*Universe {
 		{Name: "zero-value-credit", Txs: []TxSpec{
 			{Ins: []In{ext(100)}, Outs: outs("zc")},
 			{Ins: []In{par(0, 0)}, Outs: outs("c")}}},
+		{Name: "coinbase-uncredited-output-spender", Tag: "coinbase-uncredited-output", Txs: []TxSpec{
+			{Coinbase: true, Outs: outs("c-")},
+			{Ins: []In{par(0, 1)}, Outs: outs("c")},
+			{Ins: []In{par(1, 0)}, Outs: outs("C")}}},
 		{Name: "two-coinbases", Txs: []TxSpec{
 			{Coinbase: true, Outs: outs("c")},
 			{Coinbase: true, Outs: outs("c")},
